@@ -46,6 +46,7 @@ def parseOp (s : String) : Option Op :=
   | ["clos", k, v] => do some (.cacheLoadOrStore (← k.toNat?) (← parseVal v))
   | ["cload", k] => do some (.cacheLoad (← k.toNat?))
   | ["sweep"] => some (.sweep none)
+  | ["sweep", t] => do some (.sweep (some (← t.toNat?)))
   | ["tick", d] => do some (.tick (← d.toNat?))
   | _ => none
 
@@ -201,7 +202,7 @@ def stepThread (r : RState) (idx tid : Nat) (keys : List Nat) : List RState :=
       match o with
       | .inl l' => [finish { r with d := d' } { ops := rest, cur := some (txt, l') }]
       | .inr res =>
-        let tok := if txt == "sweep" then s!"r{tid}:{fmtExpired l.expiredSoFar}" else s!"r{tid}:{fmtRes res}"
+        let tok := if txt.startsWith "sweep" then s!"r{tid}:{fmtExpired l.expiredSoFar}" else s!"r{tid}:{fmtRes res}"
         match emit { r with d := d' } tok with
         | some r' => [finish r' { ops := rest, cur := none }]
         | none => []
